@@ -13,8 +13,10 @@ import (
 	"math/rand"
 	"os"
 	"reflect"
+	"runtime"
 	"strings"
 	"sync"
+	"sync/atomic"
 	"time"
 
 	"github.com/hashicorp/eventlogger"
@@ -347,6 +349,35 @@ func Table(seed int64, writers, readers, rounds int) []Mismatch {
 		}
 		if string(got2) != pair[1] {
 			mms = append(mms, Mismatch{What: "last writer does not win", Expected: pair[1], Observed: string(got2)})
+		}
+	}
+	// an event built without a table: concurrent first writers (sibling formatters) must all find their entry afterwards
+	for round := 0; round < 400 && len(mms) == 0; round++ {
+		e1 := &eventlogger.Event{}
+		const first = 4
+		var ready atomic.Int64
+		var goFlag atomic.Bool
+		var fw sync.WaitGroup
+		for k := 0; k < first; k++ {
+			fw.Add(1)
+			go func(k int) {
+				defer fw.Done()
+				ready.Add(1)
+				for !goFlag.Load() {
+				}
+				e1.FormattedAs(fmt.Sprintf("fmt-%d", k), []byte(fmt.Sprintf("value-%d-%d", round, k)))
+			}(k)
+		}
+		for ready.Load() < first {
+			runtime.Gosched()
+		}
+		goFlag.Store(true)
+		fw.Wait()
+		for k := 0; k < first; k++ {
+			if b, ok := e1.Format(fmt.Sprintf("fmt-%d", k)); !ok || string(b) != fmt.Sprintf("value-%d-%d", round, k) {
+				mms = append(mms, Mismatch{What: "an entry stored by FormattedAs is gone after concurrent first writers of other keys returned", Expected: fmt.Sprintf("value-%d-%d", round, k), Observed: string(b)})
+				break
+			}
 		}
 	}
 	e := &eventlogger.Event{}
